@@ -24,6 +24,26 @@ CLAIMED = {
             'accept_iff over all option combinations and outcomes about Gallina code regenerated from the AST of matches_golden/check (fail-closed translator); '
             'additionally exhaustive/real-subprocess correspondence with a scripted command (argv, extension, --unchecked).',
             'Trusted: Coq kernel, the ast translator, extraction, python harness. Assumes configured match strings are non-empty.', 'DESIGN.md section 4, C09'),
+    'C01': ('Coq proof composing the scheduler chain invariant (all interleavings) with renderer token agreement + end-to-end re-run of the command on real outputs',
+            'golden / golden_at_exit: for every reachable state of the hierarchical scheduler model and any token-determined command, every written content is an accepted candidate and all '
+            'three output formats carry its tokens; tied to the code by real runs (launcher) whose output files are re-run under the configured comparison, over strategies, -j, formats, cross-check.',
+            'Trusted: Coq kernel; the scheduler model is tied by history checks of real runs (TIE-H); hypotheses: token-determined deterministic command, candidates lexically closed (C15).', 'DESIGN.md section 4, C01'),
+    'C02': ('Coq proof (invariant over all interleavings) that a finished hierarchical run has tested and rejected every candidate of the last pass + exhaustive re-enumeration on real outputs',
+            'fixpoint theorem about Model/SchedHier.v for any number of workers; with C14 hier_last_pass = every enabled mutator. Tie: real runs under perturbed schedules; every proposal of every '
+            'enabled mutator on the final output is enumerated with ddSMT\'s own Producer and the command is run on each.',
+            'Trusted: Coq kernel, launcher wrappers; assumes a deterministic command and that the pool delivers one result per generated task.', 'DESIGN.md section 4/10, C02'),
+    'C05': ('Coq proof of chain / no-stale-adoption / file-is-last invariants over all interleavings of the scheduler model + history analysis of real parallel runs',
+            'no_stale, chain, written_was_checked, file_is_last for every reachable state of Model/SchedHier.v; tie: recorded histories of real runs (hierarchical, hybrid, ddmin; -j 1..4; '
+            'injected delays) are checked: every write preceded by an accepted test of the same tokens, adopting sweep/task based on the current input, file = last element.',
+            'Trusted: Coq kernel, launcher wrappers (module-level monkey patching), token digests. The ddmin loop is covered by history analysis only (model: see DESIGN).', 'DESIGN.md section 4/10, C05'),
+    'C18': ('Coq proof that one-worker (FIFO) executions of the scheduler model have prefix-comparable write histories (simulation by a deterministic sequential semantics) + repeated real -j1 runs',
+            'seq_deterministic / seq_deterministic_final / seq_refines about Model/SchedHier.v, parametric in hash functions; tie: each job is run three times under different PYTHONHASHSEED and delays; '
+            'write sequences and output bytes must coincide. Known finding F18 (fresh-variable names from node ids) is recognised and reported as KNOWN-FINDING.',
+            'Trusted: Coq kernel, launcher. Hypothesis: candidate enumeration independent of node identities (violated by IntroduceFreshVariable: known finding).', 'DESIGN.md section 4, C18'),
+    'C14': ('Coq proof that the namespace fold + theory detection computes the documented enabled set, and that pass lists regenerated from the source schedule exactly the enabled mutators + real parse_options correspondence',
+            'enabled_correct (generic), registry_sound / hier_last_pass_gen / ddmin_passes_spec_gen by computation over Gen/Tables.v regenerated from the source on every run; '
+            'tie: real options.parse_options + auto_detect_theories + get_passes/ddmin_passes for all single options, ordered pairs and random sequences.',
+            'Trusted: Coq kernel, ast translator (fails closed, behaviour-relevant functions pinned by fingerprint), extraction, harness. argparse prefix abbreviations not modelled.', 'DESIGN.md section 4, C14'),
 }
 ALL = ['C%02d' % i for i in range(1, 19)]
 NOT_APPLICABLE = {p: PARTIAL for p in ALL if p not in CLAIMED}
